@@ -1,9 +1,17 @@
-//! Miri sidecar. usage: vm <diff|escape> <shard> <ops>
+//! Miri sidecar. usage: vm <diff|escape|config|markdown> <shard> <ops>
 //! Interpreted by Miri: undefined behaviour, out-of-bounds, invalid UTF-8 assumptions and
 //! (debug) arithmetic overflow in scrut's library or its dependencies abort the run with a report.
 //! On top of that the monitors' invariants are re-checked on every operation; a failed
 //! invariant prints `MONITOR-VIOLATION ...` and exits 3.
 
+use std::collections::BTreeMap;
+use std::path::PathBuf;
+use std::time::Duration;
+
+use scrut::config::DocumentConfig;
+use scrut::config::OutputStreamControl;
+use scrut::config::TestCaseConfig;
+use scrut::config::TestCaseWait;
 use scrut::diff::DiffLine;
 use scrut::diff::DiffTool;
 use scrut::escaping::Escaper;
@@ -158,6 +166,162 @@ fn escape_workload(shard: u64, ops: usize) {
     println!("MIRI-OK escape shard={shard} ops={ops} escaped={escaped_marked} plain={plain}");
 }
 
+// ---------------------------------------------------------------------------------------------
+// C17: configuration -> YAML text -> configuration, through serde_yaml and its `unsafe-libyaml`
+// back end (the one place in scrut's dependency tree where hand-written unsafe code handles
+// document text). Equality is judged on the real structs (derived PartialEq).
+
+const PLAIN: &[&str] = &["bar", "zoing", "/tmp/wait", "the-wait-path", "x1", "some/file/name", "v", "a.b-c_d"];
+const SPECIAL: &[&str] = &[
+    "\"", "\\", ":", ": ", "{", "}", ",", "#", " #", "'", "[", "]", "\\t", "\\n", "*", "&", "!", "|", ">", "%", "@", "`", "- ", "? ", "~", "null",
+    "true", "no", "123", "1.5", "0x1f", "$HOME", "=", " ", "  ", "a b", "\u{fc}", "\u{65e5}\u{672c}", "e\u{301}", "\u{1f602}", "\u{a0}", "\u{3000}",
+    "\u{85}", "\u{2028}", "\u{feff}", "\u{7f}", "\u{9b}", "\t", "---", "...",
+];
+const NAMES: &[&str] = &["FOO", "BAR", "foo", "_x1", "a", "PATH", "LC_ALL", "My_Var9", "null", "y", "On"];
+const ML: &[&str] = &["---", "...", "title: x", "", "  indented", "- item", "# comment", "key: |", "trailing blank ", "```scrut", "\u{fc}ber"];
+
+fn gen_string(rng: &mut Rng) -> String {
+    match rng.below(10) {
+        0..=2 => PLAIN[rng.below(PLAIN.len())].to_string(),
+        3 => String::new(),
+        _ => {
+            let mut s = String::new();
+            for _ in 0..1 + rng.below(3) {
+                if rng.below(3) == 0 {
+                    s.push_str(PLAIN[rng.below(PLAIN.len())]);
+                } else {
+                    s.push_str(SPECIAL[rng.below(SPECIAL.len())]);
+                }
+            }
+            s
+        }
+    }
+}
+
+fn gen_multiline(rng: &mut Rng) -> String {
+    let n = 2 + rng.below(3);
+    let mut s = (0..n).map(|_| ML[rng.below(ML.len())]).collect::<Vec<_>>().join("\n");
+    match rng.below(4) {
+        0 => s.push('\n'),
+        1 => s.push_str("\n\n"),
+        _ => {}
+    }
+    s
+}
+
+fn gen_ms(rng: &mut Rng) -> u64 {
+    const DAY: u64 = 86_400_000;
+    match rng.below(6) {
+        0 => 1 + rng.below(999) as u64,
+        1 => 1000 * (1 + rng.below(59) as u64),
+        2 => 60_000 * (1 + rng.below(59) as u64) + 1000 * rng.below(60) as u64,
+        3 => DAY * (1 + rng.below(400) as u64),
+        4 => [1u64, 999, 1000, 1001, 59_999, 60_000, 3_600_000, DAY, 30 * DAY, 365 * DAY, 2_629_800_000, 31_557_600_000][rng.below(12)],
+        _ => 1 + (rng.next() % (400 * DAY - 1)),
+    }
+}
+
+fn gen_tc(rng: &mut Rng) -> TestCaseConfig {
+    let mask = if rng.below(6) == 0 { 1 << rng.below(8) } else { 1 + rng.below(255) };
+    let mut t = TestCaseConfig::empty();
+    if mask & 1 != 0 {
+        t.output_stream = Some([OutputStreamControl::Stdout, OutputStreamControl::Stderr, OutputStreamControl::Combined][rng.below(3)].clone());
+    }
+    if mask & 2 != 0 {
+        t.keep_crlf = Some(rng.below(2) == 0);
+    }
+    if mask & 4 != 0 {
+        t.timeout = Some(Duration::from_millis(gen_ms(rng)));
+    }
+    if mask & 8 != 0 {
+        t.detached = Some(rng.below(2) == 0);
+    }
+    if mask & 16 != 0 {
+        t.skip_document_code = Some(rng.below(256) as i32);
+    }
+    if mask & 32 != 0 {
+        t.strip_ansi_escaping = Some(rng.below(2) == 0);
+    }
+    if mask & 64 != 0 {
+        t.wait = Some(TestCaseWait {
+            timeout: Duration::from_millis(gen_ms(rng)),
+            path: if rng.below(2) == 0 { Some(PathBuf::from(gen_string(rng))) } else { None },
+        });
+    }
+    if mask & 128 != 0 {
+        let mut env = BTreeMap::new();
+        for _ in 0..1 + rng.below(3) {
+            let v = if rng.below(5) == 0 { gen_multiline(rng) } else { gen_string(rng) };
+            env.insert(NAMES[rng.below(NAMES.len())].to_string(), v);
+        }
+        t.environment = env;
+    }
+    t
+}
+
+fn config_workload(shard: u64, ops: usize) {
+    let mut rng = Rng(0xC17 ^ (shard << 20));
+    let (mut one, mut block, mut doc, mut bytes) = (0usize, 0usize, 0usize, 0usize);
+    for op in 0..ops {
+        let tc = gen_tc(&mut rng);
+        match op % 3 {
+            0 => {
+                let line = tc.to_yaml_one_liner();
+                bytes += line.len();
+                let back: TestCaseConfig = match serde_yaml::from_str(&line) {
+                    Ok(b) => b,
+                    Err(e) => fail(format!("C17 one-liner {line:?} is rejected: {e} op {op} shard {shard}")),
+                };
+                if back != tc {
+                    fail(format!("C17 one-liner {line:?} reads back as {back:?}, original {tc:?} op {op} shard {shard}"));
+                }
+                one += 1;
+            }
+            1 => {
+                let y = serde_yaml::to_string(&tc).unwrap_or_else(|e| fail(format!("C17 render error {e} op {op} shard {shard}")));
+                bytes += y.len();
+                let back: TestCaseConfig = match serde_yaml::from_str(&y) {
+                    Ok(b) => b,
+                    Err(e) => fail(format!("C17 block {y:?} is rejected: {e} op {op} shard {shard}")),
+                };
+                if back != tc {
+                    fail(format!("C17 block {y:?} reads back as {back:?}, original {tc:?} op {op} shard {shard}"));
+                }
+                block += 1;
+            }
+            _ => {
+                let mut d = DocumentConfig::empty();
+                d.defaults = tc;
+                if rng.below(2) == 0 {
+                    d.append = (0..1 + rng.below(2)).map(|_| PathBuf::from(gen_string(&mut rng))).collect();
+                }
+                if rng.below(2) == 0 {
+                    d.prepend = (0..1 + rng.below(2)).map(|_| PathBuf::from(gen_string(&mut rng))).collect();
+                }
+                if rng.below(2) == 0 {
+                    d.shell = Some(PathBuf::from(gen_string(&mut rng)));
+                }
+                if rng.below(2) == 0 {
+                    // the renderer omits the documented default (15 min); stay away from it, the monitor proper covers it
+                    let ms = gen_ms(&mut rng);
+                    d.total_timeout = Some(Duration::from_millis(if (899_000..=901_000).contains(&ms) { 5000 } else { ms }));
+                }
+                let y = serde_yaml::to_string(&d).unwrap_or_else(|e| fail(format!("C17 render error {e} op {op} shard {shard}")));
+                bytes += y.len();
+                let back: DocumentConfig = match serde_yaml::from_str(&y) {
+                    Ok(b) => b,
+                    Err(e) => fail(format!("C17 document block {y:?} is rejected: {e} op {op} shard {shard}")),
+                };
+                if back != d {
+                    fail(format!("C17 document block {y:?} reads back as {back:?}, original {d:?} op {op} shard {shard}"));
+                }
+                doc += 1;
+            }
+        }
+    }
+    println!("MIRI-OK config shard={shard} ops={ops} one_liner={one} block_testcase={block} block_document={doc} yaml_bytes={bytes}");
+}
+
 fn main() {
     let args: Vec<String> = std::env::args().collect();
     let what = args.get(1).map(|s| s.as_str()).unwrap_or("diff");
@@ -166,6 +330,7 @@ fn main() {
     match what {
         "diff" => diff_workload(shard, ops),
         "escape" => escape_workload(shard, ops),
+        "config" => config_workload(shard, ops),
         "noop" => println!("MIRI-OK noop"),
         _ => std::process::exit(2),
     }
